@@ -15,7 +15,7 @@ C14_EXCEPTIONS = {
         _TABLES,
     'c14.panic|bemodel::climatedata::total_radiation_in_july_by_orientation|Index::index|unwrap(Mutex::lock(MONTHLYRADDATA))[].dif[6]':
         _TABLES,
-    'c14.panic|bemodel::energy::indicators::qsoljul::QSolJulData::from|unwrap|HashMap::get(totradjul,props.windows[].1.orientation)':
+    'c14.panic|bemodel::energy::indicators::qsoljul::QSolJulData::from|unwrap|HashMap::get(totradjul,*':      # any orientation value: the table has all nine classes
         _TABLES,
     'c14.panic|bemodel::energy::radiation::<impl types::model::Model>::compute_fshobst|unwrap|HashMap::get(unwrap(Mutex::lock(CLIMATEMETADATA)),self.meta.climate)':
         _TABLES,
@@ -143,7 +143,7 @@ C14_DIV_EXCEPTIONS = {
         _SANE + "R_f >= 0.20 > 0 and R_u >= 0",
     'c14.div|bemodel::energy::transmittance::<impl types::opaques::Wall>::u_value_interior_cond_uncond|divisor=R_f':
         "argument of a debug! message only; R_f >= 0.20",
-    'c14.div|bemodel::energy::<impl types::model::Model>::global_ventilation_rate|divisor=utils::fround2(sum(filter_map(slice::iter(..),{closure})))':
+    'c14.div|bemodel::energy::<impl types::model::Model>::global_ventilation_rate|divisor=utils::fround2(sum(*':     # however the sum over spaces is written
         _SANE + "the net volume of habitable spaces inside the envelope is positive when a habitable space exists",
     'c14.div|climate::solar::G_sol_b|divisor=solar::sind(a)':
         "a = max(altsol, 0.01) degrees, so sin(a) >= sin(0.01 deg) > 0 for the sun above the horizon",
